@@ -540,10 +540,28 @@ macro_rules! impl_cfg {
                 v.clear()
             }
             fn extend(v: &mut Self::V, cols: &[Key]) {
-                v.extend(cols.iter().map(mk::<$fam>))
+                // the same items through sources with other size hints: (0, Some(n)) and (0, None).
+                // An Extend impl may use the hint to reserve, never to decide what to append; a
+                // difference is reported through the panic channel with the ORACLE prefix
+                let mut w1 = v.clone();
+                let mut w2 = v.clone();
+                v.extend(cols.iter().map(mk::<$fam>));
+                w1.extend(cols.iter().map(mk::<$fam>).filter(|_| true));
+                let mut it = cols.iter();
+                w2.extend(core::iter::from_fn(|| it.next().map(mk::<$fam>)));
+                let (a, b, c) = (<$fam as Fam>::bufs(v), <$fam as Fam>::bufs(&w1), <$fam as Fam>::bufs(&w2));
+                if a != b || a != c {
+                    panic!("C18-ORACLE: extend() appends other items from an iterator whose size_hint lower bound is 0 than from an exact-size iterator: exact {:?}, filter {:?}, from_fn {:?}", a, b, c);
+                }
             }
             fn collect(cols: &[Key]) -> Self::V {
-                cols.iter().map(mk::<$fam>).collect()
+                let v: Self::V = cols.iter().map(mk::<$fam>).collect();
+                let w: Self::V = cols.iter().map(mk::<$fam>).filter(|_| true).collect();
+                let (a, b) = (<$fam as Fam>::bufs(&v), <$fam as Fam>::bufs(&w));
+                if a != b {
+                    panic!("C18-ORACLE: collect() builds another collection from an iterator whose size_hint lower bound is 0: exact {:?}, filter {:?}", a, b);
+                }
+                v
             }
             fn drain(v: &mut Self::V, r: Rng, sc: Script, tr: &mut Trace) {
                 $crate::with_range!(r, rr => run_script(v.drain(rr), sc, tr, |c, _| key::<$fam>(c)))
